@@ -2,6 +2,7 @@
 real crates.  Results are BOUNDED evidence only: a failing case is a concrete failing input on the real code (a violation with
 a replay); a pass proves nothing and is never counted as a discharged obligation."""
 import fcntl
+import hashlib
 import os
 import re
 import subprocess
@@ -38,6 +39,43 @@ def prepare():
             _write_if_changed(os.path.join(SCRATCH, d, 'src', 'lib.rs'), lib + MOD_LINE)
         else:
             _write_if_changed(os.path.join(SCRATCH, d, 'src', 'lib.rs'), lib)
+    _force_rebuild_of_changed_crates()
+
+
+def _tree_hash(root, extra):
+    h = hashlib.sha256()
+    files = list(extra)
+    for dp, dn, fn in os.walk(root):
+        dn[:] = sorted(x for x in dn if x != 'target')
+        files += [os.path.join(dp, f) for f in sorted(fn)]
+    for f in files:
+        try:
+            h.update(os.path.relpath(f, SCRATCH).encode() + b'\0' + open(f, 'rb').read() + b'\0')
+        except OSError:
+            pass
+    return h.hexdigest()
+
+
+def _force_rebuild_of_changed_crates():
+    """cargo decides freshness by mtime.  A tree that goes back to an OLDER state (a reverted change whose files carry their old mtimes)
+    would otherwise be tested with the stale binary of the newer state.  The content hash of every workspace member is compared with the one
+    recorded at the last run; on any difference the member's lib.rs is touched so that cargo rebuilds it (and its dependents)."""
+    os.makedirs(TARGET, exist_ok=True)
+    top = [os.path.join(SCRATCH, f) for f in ('Cargo.toml', 'Cargo.lock', 'rust-toolchain') if os.path.exists(os.path.join(SCRATCH, f))]
+    for d in sorted(x for x in os.listdir(SCRATCH) if os.path.isfile(os.path.join(SCRATCH, x, 'Cargo.toml'))):
+        cur = _tree_hash(os.path.join(SCRATCH, d), top)
+        stamp = os.path.join(TARGET, 'vx-srchash-' + d)
+        try:
+            old = open(stamp).read().strip()
+        except OSError:
+            old = ''
+        if old != cur:
+            for cand in ('src/lib.rs', 'src/main.rs', 'Cargo.toml'):
+                f = os.path.join(SCRATCH, d, cand)
+                if os.path.exists(f):
+                    os.utime(f, None)
+                    break
+            open(stamp, 'w').write(cur)
 
 
 def run(crate_key, prefixes, timeout=3000):
